@@ -4,6 +4,7 @@ import (
 	"fmt"
 	"go/token"
 	"go/types"
+	"os"
 	"sort"
 	"strings"
 
@@ -171,6 +172,20 @@ func (vc *VC) callInner(fr *Frame, instr ssa.Instruction, c *ssa.CallCommon, st 
 	if resT.Len() == 1 {
 		resType = resT.At(0).Type()
 	}
+	// the call instruction's own type is the instantiated one (an uninstantiated
+	// generic callee's signature still mentions its type parameters)
+	if cv, ok := instr.(*ssa.Call); ok {
+		if os.Getenv("GOVC_DBG") != "" {
+			fmt.Fprintf(os.Stderr, "DBG call %s : %s | sig %s\n", cv, cv.Type(), c.Signature())
+		}
+		if tt, isT := cv.Type().(*types.Tuple); isT {
+			if tt.Len() == resT.Len() && tt.Len() > 1 {
+				resType = tt
+			}
+		} else if resT.Len() == 1 {
+			resType = cv.Type()
+		}
+	}
 	// builtins
 	if b, ok := c.Value.(*ssa.Builtin); ok {
 		return vc.builtin(fr, instr, b, c, st)
@@ -294,8 +309,14 @@ func (vc *VC) callInner(fr *Frame, instr ssa.Instruction, c *ssa.CallCommon, st 
 	}
 	// inline?
 	target := callee
-	if callee.Origin() != nil && len(callee.Blocks) == 0 {
+	if callee.Origin() != nil {
 		target = callee.Origin()
+		// the origin's body is typed over its own type parameters: inlining it is
+		// only sort-correct when the instantiation passes the same-named parameters
+		// through (generic caller of the same generic type); otherwise stay opaque.
+		if !sameTypeParams(callee) {
+			forceOpaque = true
+		}
 	}
 	if !forceOpaque && len(target.Blocks) > 0 && vc.shouldInline(fr, target, spec) {
 		return vc.inline(fr, instr, target, spec, name, args, bindings, resType, st)
@@ -544,7 +565,7 @@ func (vc *VC) applyContract(fr *Frame, instr ssa.Instruction, spec *FuncSpec, na
 		}
 	} else if callee != nil {
 		target := callee
-		if callee.Origin() != nil && len(callee.Blocks) == 0 {
+		if callee.Origin() != nil {
 			target = callee.Origin()
 		}
 		vc.havocModset(st, vc.eng.modsetOf(target))
@@ -1772,7 +1793,7 @@ func (vc *VC) loopCallMods(fr *Frame, li *loopInfo, x *ssa.Call, add func(comp, 
 	}
 	if callee != nil {
 		target := callee
-		if callee.Origin() != nil && len(callee.Blocks) == 0 {
+		if callee.Origin() != nil {
 			target = callee.Origin()
 		}
 		ms := vc.eng.modsetOf(target)
